@@ -36,13 +36,13 @@ Definition sami_step_tr (acc : (str * bool) * list bool) (n : node) : (str * boo
   | NText s => ((line ++ xml_escape s ++ lit " ", open), tr)
   | NBreak => ((rstrip line ++ br_markup, open), tr)
   | NStyle true st =>
-      let line1 := if open then close_span line else line in
+      let line1 := if open then close_span_sp line else line in
       let tr1 := if open then tr ++ [false] else tr in
       match sami_css st with
       | [] => ((line1, open), tr1)
       | css => ((line1 ++ lit "<span style=""" ++ css ++ lit """>", true), tr1 ++ [true])
       end
-  | NStyle false _ => if open then ((close_span line, false), tr ++ [false]) else ((line, open), tr)
+  | NStyle false _ => if open then ((close_span_sp line, false), tr ++ [false]) else ((line, open), tr)
   end.
 Definition sami_run_tr (open : bool) (ns : list node) : (str * bool) * list bool :=
   fold_left sami_step_tr ns (([], open), []).
